@@ -1,10 +1,40 @@
 import RucteModel.Expr
 open Nom
 
+/-!
+# Soundness lemmas for the nom combinator model
+
+Three compositional predicates on parsers, bundled as `Good`:
+* `Sfx p`     : on success the rest is a suffix of the input;
+* `NoPanic p` : `p` never returns `.panic`;
+* `ErrIn p`   : every visible error entry lies inside the input.
+One lemma `good_*` per combinator; the tactic `good` applies them syntactically.
+Further: `Consumes` (success eats at least one byte), `EndsEmpty` (success leaves nothing),
+`recognize_spec`, `delimited_ok`.
+-/
 namespace Nom
 
+variable {α β γ : Type}
+
 /-- A parser is *suffix-respecting*: on success the rest is a suffix of the input. -/
-def Sfx {α} (p : Parser α) : Prop := ∀ inp r v, p inp = .ok r v → ∃ pre, inp = pre ++ r
+def Sfx (p : Parser α) : Prop := ∀ inp r v, p inp = .ok r v → r <:+ inp
+
+def NoPanic (p : Parser α) : Prop := ∀ inp, p inp ≠ .panic
+
+def ErrIn (p : Parser α) : Prop := ∀ inp es, p inp = .err es → ∀ e ∈ es, e.rem ≤ inp.length
+
+structure Good (p : Parser α) : Prop where
+  sfx : Sfx p
+  np : NoPanic p
+  ei : ErrIn p
+
+theorem Sfx.len {p : Parser α} (hp : Sfx p) {inp r v} (h : p inp = .ok r v) : r.length ≤ inp.length :=
+  (hp _ _ _ h).length_le
+
+theorem errIn_nil {n : Nat} : ∀ e ∈ ([] : Errs), e.rem ≤ n := by
+  intro e he; cases he
+
+/-! ### primitives -/
 
 theorem isPrefix_some {t inp r : Bytes} (h : isPrefix t inp = some r) : inp = t ++ r := by
   induction t generalizing inp with
@@ -18,12 +48,47 @@ theorem isPrefix_some {t inp r : Bytes} (h : isPrefix t inp = some r) : inp = t 
       · next hab => subst hab; simp [ih h]
       · simp at h
 
-theorem sfx_tag (t : Bytes) : Sfx (tag t) := by
-  intro inp r v h
+theorem tag_ok {t inp r v : Bytes} (h : tag t inp = .ok r v) : inp = t ++ r ∧ v = t := by
   unfold tag at h
   split at h
-  · next r' hp => injection h with h1 h2; subst h1; exact ⟨t, isPrefix_some hp⟩
+  · next r' hp => injection h with h1 h2; subst h1; exact ⟨isPrefix_some hp, h2.symm⟩
   · simp at h
+
+theorem good_oom : Good (fun _ => Res.oom : Parser α) where
+  sfx := by intro inp r v h; simp at h
+  np := by intro inp h; simp at h
+  ei := by intro inp es h; simp at h
+
+theorem good_tag (t : Bytes) : Good (tag t) where
+  sfx := by intro inp r v h; exact ⟨t, (tag_ok h).1.symm⟩
+  np := by intro inp h; unfold tag at h; split at h <;> simp at h
+  ei := by
+    intro inp es h; unfold tag at h
+    split at h <;> simp at h
+    subst h; exact errIn_nil
+
+theorem char_ok {c : UInt8} {inp r v} (h : char c inp = .ok r v) : inp = c :: r ∧ v = c := by
+  unfold char at h
+  split at h
+  · split at h
+    · next hb => injection h with h1 h2; subst h1 hb; exact ⟨rfl, h2.symm⟩
+    · simp at h
+  · simp at h
+
+theorem good_char (c : UInt8) : Good (char c) where
+  sfx := by intro inp r v h; rw [(char_ok h).1]; exact List.suffix_cons _ _
+  np := by
+    intro inp h; unfold char at h
+    split at h
+    · split at h <;> simp at h
+    · simp at h
+  ei := by
+    intro inp es h; unfold char at h
+    split at h
+    · split at h
+      · simp at h
+      · simp at h; subst h; simp
+    · simp at h; subst h; simp
 
 theorem span_append (p : UInt8 → Bool) (inp : Bytes) : inp = (span p inp).1 ++ (span p inp).2 := by
   induction inp with
@@ -34,50 +99,254 @@ theorem span_append (p : UInt8 → Bool) (inp : Bytes) : inp = (span p inp).1 ++
     · simp; exact ih
     · simp
 
-theorem sfx_isNot (s : Bytes) : Sfx (isNot s) := by
-  intro inp r v h
-  unfold isNot at h
-  have hs := span_append (fun b => !s.contains b) inp
+theorem span_suffix (p : UInt8 → Bool) (inp : Bytes) : (span p inp).2 <:+ inp :=
+  ⟨(span p inp).1, (span_append p inp).symm⟩
+
+theorem take1_ok {p : UInt8 → Bool} {inp r v} (h : take1 p inp = .ok r v) :
+    inp = v ++ r ∧ v ≠ [] := by
+  unfold take1 at h
+  have hs := span_append p inp
   split at h
   · simp at h
   · next a r' hne heq =>
-    injection h with h1 h2; subst h1
-    rw [heq] at hs; exact ⟨a, hs⟩
+    injection h with h1 h2; subst h1 h2
+    rw [heq] at hs
+    refine ⟨hs, ?_⟩
+    intro ha; subst ha; exact hne rfl
 
-theorem sfx_pmap {α β} {p : Parser α} (f : α → β) (hp : Sfx p) : Sfx (pmap p f) := by
-  intro inp r v h
-  unfold pmap at h
-  split at h <;> try simp at h
-  next r' v' hp' => exact h.1 ▸ hp _ _ _ hp'
+theorem good_take1 (p : UInt8 → Bool) : Good (take1 p) where
+  sfx := by intro inp r v h; exact ⟨v, (take1_ok h).1.symm⟩
+  np := by intro inp h; unfold take1 at h; split at h <;> simp at h
+  ei := by
+    intro inp es h; unfold take1 at h
+    split at h <;> simp at h
+    subst h; exact errIn_nil
 
-theorem sfx_mapRes {α β} {p : Parser α} (f : α → Option β) (hp : Sfx p) : Sfx (mapRes p f) := by
-  intro inp r v h
-  unfold mapRes at h
-  split at h <;> try simp at h
-  next r' v' hp' =>
+theorem isNot_eq (s : Bytes) : isNot s = take1 (fun b => !s.contains b) := rfl
+theorem isA_eq (s : Bytes) : isA s = take1 (fun b => s.contains b) := rfl
+
+theorem good_isNot (s : Bytes) : Good (isNot s) := isNot_eq s ▸ good_take1 _
+theorem good_isA (s : Bytes) : Good (isA s) := isA_eq s ▸ good_take1 _
+theorem good_multispace1 : Good multispace1 := good_take1 _
+theorem good_alpha1 : Good alpha1 := good_take1 _
+theorem good_digit1 : Good digit1 := good_take1 _
+
+theorem good_multispace0 : Good multispace0 where
+  sfx := by
+    intro inp r v h; simp only [multispace0] at h
+    injection h with h1 h2; subst h1; exact span_suffix _ _
+  np := by intro inp h; simp [multispace0] at h
+  ei := by intro inp es h; simp [multispace0] at h
+
+/-- `one_of(set)` for an ASCII set: the matched byte is `< 0x80`, so `Satisfy` advances by one. -/
+theorem good_oneOf {set : Bytes} (hs : ∀ b ∈ set, b < 0x80) : Good (oneOf set) where
+  sfx := by
+    intro inp r v h; unfold oneOf at h
+    split at h
+    · next b r' =>
+      split at h
+      · next hc =>
+        have hb : b < 0x80 := hs b (by simpa using hc)
+        simp [satisfyAdvance, hb] at h
+        rw [← h.1]; exact List.suffix_cons _ _
+      · simp at h
+    · simp at h
+  np := by
+    intro inp h; unfold oneOf at h
+    split at h
+    · next b r' =>
+      split at h
+      · next hc =>
+        have hb : b < 0x80 := hs b (by simpa using hc)
+        simp [satisfyAdvance, hb] at h
+      · simp at h
+    · simp at h
+  ei := by
+    intro inp es h; unfold oneOf at h
+    split at h
+    · next b r' =>
+      split at h
+      · next hc =>
+        have hb : b < 0x80 := hs b (by simpa using hc)
+        simp [satisfyAdvance, hb] at h
+      · simp at h; subst h; exact errIn_nil
+    · simp at h; subst h; exact errIn_nil
+
+/-! ### first-order combinators -/
+
+theorem good_pmap {p : Parser α} {f : α → β} (hp : Good p) : Good (pmap p f) where
+  sfx := by
+    intro inp r v h; unfold pmap at h
     split at h <;> try simp at h
-    exact h.1 ▸ hp _ _ _ hp'
+    next r' v' hp' => exact h.1 ▸ hp.sfx _ _ _ hp'
+  np := by
+    intro inp h; unfold pmap at h
+    split at h <;> try simp at h
+    next hp' => exact hp.np _ hp'
+  ei := by
+    intro inp es h; unfold pmap at h
+    split at h <;> try simp at h
+    next e hp' => subst h; exact hp.ei _ _ hp'
 
-theorem sfx_seq {α β} {p : Parser α} {q : Parser β} (hp : Sfx p) (hq : Sfx q) : Sfx (seq p q) := by
-  intro inp r v h
+theorem good_value {p : Parser α} {v : β} (hp : Good p) : Good (value v p) := good_pmap hp
+
+theorem good_mapRes {p : Parser α} {f : α → Option β} (hp : Good p) : Good (mapRes p f) where
+  sfx := by
+    intro inp r v h; unfold mapRes at h
+    split at h <;> try simp at h
+    next r' v' hp' =>
+      split at h <;> try simp at h
+      exact h.1 ▸ hp.sfx _ _ _ hp'
+  np := by
+    intro inp h; unfold mapRes at h
+    split at h <;> try simp at h
+    · split at h <;> simp at h
+    · next hp' => exact hp.np _ hp'
+  ei := by
+    intro inp es h; unfold mapRes at h
+    split at h <;> try simp at h
+    · split at h <;> simp at h
+      subst h; exact errIn_nil
+    · next e hp' => subst h; exact hp.ei _ _ hp'
+
+theorem good_recognize {p : Parser α} (hp : Good p) : Good (recognize p) where
+  sfx := by
+    intro inp r v h; unfold recognize at h
+    split at h <;> try simp at h
+    next r' v' hp' => exact h.1 ▸ hp.sfx _ _ _ hp'
+  np := by
+    intro inp h; unfold recognize at h
+    split at h <;> try simp at h
+    next hp' => exact hp.np _ hp'
+  ei := by
+    intro inp es h; unfold recognize at h
+    split at h <;> try simp at h
+    next e hp' => subst h; exact hp.ei _ _ hp'
+
+theorem seq_ok {p : Parser α} {q : Parser β} {inp r v} (h : seq p q inp = .ok r v) :
+    ∃ r1, p inp = .ok r1 v.1 ∧ q r1 = .ok r v.2 := by
   unfold seq at h
   split at h <;> try simp at h
   next r1 a h1 =>
     split at h <;> try simp at h
     next r2 b h2 =>
-      obtain ⟨p1, e1⟩ := hp _ _ _ h1
-      obtain ⟨p2, e2⟩ := hq _ _ _ h2
-      exact ⟨p1 ++ p2, by rw [e1, e2, h.1]; simp⟩
+      obtain ⟨e1, e2⟩ := h
+      subst e1 e2
+      exact ⟨r1, h1, h2⟩
 
-theorem sfx_orElse {α} {p q : Parser α} (hp : Sfx p) (hq : Sfx q) : Sfx (orElse p q) := by
-  intro inp r v h
-  unfold orElse at h
-  split at h
-  · exact hq _ _ _ h
-  · exact hp _ _ _ h
+theorem good_seq {p : Parser α} {q : Parser β} (hp : Good p) (hq : Good q) : Good (seq p q) where
+  sfx := by
+    intro inp r v h
+    obtain ⟨r1, h1, h2⟩ := seq_ok h
+    exact (hq.sfx _ _ _ h2).trans (hp.sfx _ _ _ h1)
+  np := by
+    intro inp h; unfold seq at h
+    split at h <;> try simp at h
+    · next r1 a h1 =>
+      split at h <;> try simp at h
+      next h2 => exact hq.np _ h2
+    · next h1 => exact hp.np _ h1
+  ei := by
+    intro inp es h; unfold seq at h
+    split at h <;> try simp at h
+    · next r1 a h1 =>
+      split at h <;> try simp at h
+      next e h2 =>
+        subst h
+        intro e' he'
+        exact Nat.le_trans (hq.ei _ _ h2 e' he') (hp.sfx.len h1)
+    · next e h1 => subst h; exact hp.ei _ _ h1
 
-theorem sfx_many0Go {α} {p : Parser α} (hp : Sfx p) :
-    ∀ n inp acc r v, many0Go p n inp acc = .ok r v → ∃ pre, inp = pre ++ r := by
+theorem good_preceded {p : Parser α} {q : Parser β} (hp : Good p) (hq : Good q) :
+    Good (preceded p q) := good_pmap (good_seq hp hq)
+theorem good_terminated {p : Parser α} {q : Parser β} (hp : Good p) (hq : Good q) :
+    Good (terminated p q) := good_pmap (good_seq hp hq)
+theorem good_delimited {p : Parser α} {q : Parser β} {s : Parser γ}
+    (hp : Good p) (hq : Good q) (hs : Good s) : Good (delimited p q s) :=
+  good_preceded hp (good_terminated hq hs)
+
+theorem good_orElse {p q : Parser α} (hp : Good p) (hq : Good q) : Good (orElse p q) where
+  sfx := by
+    intro inp r v h; unfold orElse at h
+    split at h
+    · exact hq.sfx _ _ _ h
+    · exact hp.sfx _ _ _ h
+  np := by
+    intro inp h; unfold orElse at h
+    split at h
+    · exact hq.np _ h
+    · exact hp.np _ h
+  ei := by
+    intro inp es h; unfold orElse at h
+    split at h
+    · exact hq.ei _ _ h
+    · exact hp.ei _ _ h
+
+theorem good_alt_nil : Good (alt ([] : List (Parser α))) where
+  sfx := by intro inp r v h; simp [alt] at h
+  np := by intro inp h; simp [alt] at h
+  ei := by intro inp es h; simp [alt] at h; subst h; exact errIn_nil
+
+theorem good_alt_one {p : Parser α} (hp : Good p) : Good (alt [p]) := hp
+
+theorem good_alt_cons {p q : Parser α} {ps : List (Parser α)} (hp : Good p) (hq : Good (alt (q :: ps))) :
+    Good (alt (p :: q :: ps)) := good_orElse hp hq
+
+theorem good_opt {p : Parser α} (hp : Good p) : Good (opt p) where
+  sfx := by
+    intro inp r v h; unfold opt at h
+    split at h <;> try simp at h
+    · next r' v' hp' => exact h.1 ▸ hp.sfx _ _ _ hp'
+    · exact h.1 ▸ List.suffix_rfl
+  np := by
+    intro inp h; unfold opt at h
+    split at h <;> try simp at h
+    next hp' => exact hp.np _ hp'
+  ei := by
+    intro inp es h; unfold opt at h
+    split at h <;> simp at h
+
+theorem good_context {p : Parser α} {msg : String} (hp : Good p) : Good (context msg p) where
+  sfx := by
+    intro inp r v h; unfold context at h
+    split at h
+    · simp at h
+    · exact hp.sfx _ _ _ h
+  np := by
+    intro inp h; unfold context at h
+    split at h
+    · simp at h
+    · exact hp.np _ h
+  ei := by
+    intro inp es h; unfold context at h
+    split at h
+    · next e hp' =>
+      simp at h; subst h
+      intro e' he'
+      simp only [List.mem_append, List.mem_singleton] at he'
+      rcases he' with he' | he'
+      · exact hp.ei _ _ hp' e' he'
+      · subst he'; exact Nat.le_refl _
+    · exact hp.ei _ _ h
+
+theorem good_pnot {p : Parser α} (hp : Good p) : Good (pnot p) where
+  sfx := by
+    intro inp r v h; unfold pnot at h
+    split at h <;> try simp at h
+    exact h ▸ List.suffix_rfl
+  np := by
+    intro inp h; unfold pnot at h
+    split at h <;> try simp at h
+    next hp' => exact hp.np _ hp'
+  ei := by
+    intro inp es h; unfold pnot at h
+    split at h <;> simp at h
+    subst h; exact errIn_nil
+
+/-! ### loops -/
+
+theorem many0Go_sfx {p : Parser α} (hp : Good p) :
+    ∀ n inp acc r v, many0Go p n inp acc = .ok r v → r <:+ inp := by
   intro n
   induction n with
   | zero => intro inp acc r v h; simp [many0Go] at h
@@ -85,30 +354,570 @@ theorem sfx_many0Go {α} {p : Parser α} (hp : Sfx p) :
     intro inp acc r v h
     simp only [many0Go] at h
     split at h
-    · injection h with h1 h2; exact ⟨[], by simp [h1]⟩
+    · injection h with h1 h2; exact h1 ▸ List.suffix_rfl
     · simp at h
     · simp at h
     · next r1 v1 h1 =>
       split at h
       · simp at h
-      · obtain ⟨p1, e1⟩ := hp _ _ _ h1
-        obtain ⟨p2, e2⟩ := ih _ _ _ _ h
-        exact ⟨p1 ++ p2, by rw [e1, e2]; simp⟩
+      · exact (ih _ _ _ _ h).trans (hp.sfx _ _ _ h1)
 
-theorem sfx_many0 {α} {p : Parser α} (hp : Sfx p) : Sfx (many0 p) := by
-  intro inp r v h
-  exact sfx_many0Go hp _ _ _ _ _ h
+theorem many0Go_np {p : Parser α} (hp : Good p) :
+    ∀ n inp acc, many0Go p n inp acc ≠ .panic := by
+  intro n
+  induction n with
+  | zero => intro inp acc h; simp [many0Go] at h
+  | succ n ih =>
+    intro inp acc h
+    simp only [many0Go] at h
+    split at h
+    · simp at h
+    · simp at h
+    · next h1 => exact hp.np _ h1
+    · split at h
+      · simp at h
+      · exact ih _ _ h
+
+theorem many0Go_err {p : Parser α} :
+    ∀ n inp acc es, many0Go p n inp acc = .err es → es = [] := by
+  intro n
+  induction n with
+  | zero => intro inp acc es h; simp [many0Go] at h
+  | succ n ih =>
+    intro inp acc es h
+    simp only [many0Go] at h
+    split at h
+    · simp at h
+    · simp at h
+    · simp at h
+    · split at h
+      · simp at h; exact h
+      · exact ih _ _ _ h
+
+theorem good_many0 {p : Parser α} (hp : Good p) : Good (many0 p) where
+  sfx := by intro inp r v h; exact many0Go_sfx hp _ _ _ _ _ h
+  np := by intro inp; exact many0Go_np hp _ _ _
+  ei := by intro inp es h; rw [many0Go_err _ _ _ _ h]; exact errIn_nil
+
+theorem manyTillGo_sfx {f : Parser α} {g : Parser β} (hf : Good f) (hg : Good g) :
+    ∀ n inp acc r v, manyTillGo f g n inp acc = .ok r v → r <:+ inp := by
+  intro n
+  induction n with
+  | zero => intro inp acc r v h; simp [manyTillGo] at h
+  | succ n ih =>
+    intro inp acc r v h
+    simp only [manyTillGo] at h
+    split at h
+    · next r0 o h0 => injection h with h1 h2; exact h1 ▸ hg.sfx _ _ _ h0
+    · simp at h
+    · simp at h
+    · split at h
+      · simp at h
+      · simp at h
+      · simp at h
+      · next r1 v1 h1 =>
+        split at h
+        · simp at h
+        · exact (ih _ _ _ _ h).trans (hf.sfx _ _ _ h1)
+
+theorem manyTillGo_np {f : Parser α} {g : Parser β} (hf : Good f) (hg : Good g) :
+    ∀ n inp acc, manyTillGo f g n inp acc ≠ .panic := by
+  intro n
+  induction n with
+  | zero => intro inp acc h; simp [manyTillGo] at h
+  | succ n ih =>
+    intro inp acc h
+    simp only [manyTillGo] at h
+    split at h
+    · simp at h
+    · simp at h
+    · next h0 => exact hg.np _ h0
+    · split at h
+      · simp at h
+      · simp at h
+      · next h1 => exact hf.np _ h1
+      · split at h
+        · simp at h
+        · exact ih _ _ h
+
+theorem manyTillGo_ei {f : Parser α} {g : Parser β} (hf : Good f) :
+    ∀ n inp acc es, manyTillGo f g n inp acc = .err es → ∀ e ∈ es, e.rem ≤ inp.length := by
+  intro n
+  induction n with
+  | zero => intro inp acc es h; simp [manyTillGo] at h
+  | succ n ih =>
+    intro inp acc es h
+    simp only [manyTillGo] at h
+    split at h
+    · simp at h
+    · simp at h
+    · simp at h
+    · split at h
+      · next e h1 => simp at h; subst h; exact hf.ei _ _ h1
+      · simp at h
+      · simp at h
+      · next r1 v1 h1 =>
+        split at h
+        · simp at h; subst h; exact errIn_nil
+        · intro e he
+          exact Nat.le_trans (ih _ _ _ h e he) (hf.sfx.len h1)
+
+theorem good_manyTill {f : Parser α} {g : Parser β} (hf : Good f) (hg : Good g) :
+    Good (manyTill f g) where
+  sfx := by intro inp r v h; exact manyTillGo_sfx hf hg _ _ _ _ _ h
+  np := by intro inp; exact manyTillGo_np hf hg _ _ _
+  ei := by intro inp es h; exact manyTillGo_ei hf _ _ _ _ h
+
+theorem sepLoop_sfx {sep : Parser β} {p : Parser α} (hs : Good sep) (hp : Good p) :
+    ∀ n inp acc r v, sepLoop sep p n inp acc = .ok r v → r <:+ inp := by
+  intro n
+  induction n with
+  | zero => intro inp acc r v h; simp [sepLoop] at h
+  | succ n ih =>
+    intro inp acc r v h
+    simp only [sepLoop] at h
+    split at h
+    · injection h with h1 h2; exact h1 ▸ List.suffix_rfl
+    · simp at h
+    · simp at h
+    · next r1 v1 h1 =>
+      split at h
+      · injection h with h1 h2; exact h1 ▸ List.suffix_rfl
+      · simp at h
+      · simp at h
+      · next r2 v2 h2 =>
+        split at h
+        · simp at h
+        · exact (ih _ _ _ _ h).trans ((hp.sfx _ _ _ h2).trans (hs.sfx _ _ _ h1))
+
+theorem sepLoop_np {sep : Parser β} {p : Parser α} (hs : Good sep) (hp : Good p) :
+    ∀ n inp acc, sepLoop sep p n inp acc ≠ .panic := by
+  intro n
+  induction n with
+  | zero => intro inp acc h; simp [sepLoop] at h
+  | succ n ih =>
+    intro inp acc h
+    simp only [sepLoop] at h
+    split at h
+    · simp at h
+    · simp at h
+    · next h1 => exact hs.np _ h1
+    · split at h
+      · simp at h
+      · simp at h
+      · next h2 => exact hp.np _ h2
+      · split at h
+        · simp at h
+        · exact ih _ _ h
+
+theorem sepLoop_err {sep : Parser β} {p : Parser α} :
+    ∀ n inp acc es, sepLoop sep p n inp acc = .err es → es = [] := by
+  intro n
+  induction n with
+  | zero => intro inp acc es h; simp [sepLoop] at h
+  | succ n ih =>
+    intro inp acc es h
+    simp only [sepLoop] at h
+    split at h
+    · simp at h
+    · simp at h
+    · simp at h
+    · split at h
+      · simp at h
+      · simp at h
+      · simp at h
+      · split at h
+        · simp at h; exact h
+        · exact ih _ _ _ h
+
+theorem good_sepList0 {sep : Parser β} {p : Parser α} (hs : Good sep) (hp : Good p) :
+    Good (sepList0 sep p) where
+  sfx := by
+    intro inp r v h; unfold sepList0 at h
+    split at h
+    · injection h with h1 h2; exact h1 ▸ List.suffix_rfl
+    · simp at h
+    · simp at h
+    · next r1 v1 h1 => exact (sepLoop_sfx hs hp _ _ _ _ _ h).trans (hp.sfx _ _ _ h1)
+  np := by
+    intro inp h; unfold sepList0 at h
+    split at h
+    · simp at h
+    · simp at h
+    · next h1 => exact hp.np _ h1
+    · exact sepLoop_np hs hp _ _ _ h
+  ei := by
+    intro inp es h; unfold sepList0 at h
+    split at h
+    · simp at h
+    · simp at h
+    · simp at h
+    · rw [sepLoop_err _ _ _ _ h]; exact errIn_nil
+
+theorem good_sepList1 {sep : Parser β} {p : Parser α} (hs : Good sep) (hp : Good p) :
+    Good (sepList1 sep p) where
+  sfx := by
+    intro inp r v h; unfold sepList1 at h
+    split at h
+    · simp at h
+    · simp at h
+    · simp at h
+    · next r1 v1 h1 => exact (sepLoop_sfx hs hp _ _ _ _ _ h).trans (hp.sfx _ _ _ h1)
+  np := by
+    intro inp h; unfold sepList1 at h
+    split at h
+    · simp at h
+    · simp at h
+    · next h1 => exact hp.np _ h1
+    · exact sepLoop_np hs hp _ _ _ h
+  ei := by
+    intro inp es h; unfold sepList1 at h
+    split at h
+    · next e h1 => simp at h; subst h; exact hp.ei _ _ h1
+    · simp at h
+    · simp at h
+    · rw [sepLoop_err _ _ _ _ h]; exact errIn_nil
+
+theorem escapedGo_sfx {normal : Parser α} {ctl : UInt8} {esc : Parser β} {input : Bytes}
+    (hn : Good normal) (he : Good esc) :
+    ∀ n i r v, i <:+ input → escapedGo normal ctl esc input n i = .ok r v → r <:+ input := by
+  intro n
+  induction n with
+  | zero => intro i r v _ h; simp [escapedGo] at h
+  | succ n ih =>
+    intro i r v hi h
+    simp only [escapedGo] at h
+    split at h
+    · injection h with h1 h2; exact h1 ▸ List.nil_suffix
+    · split at h
+      · simp at h
+      · simp at h
+      · next i2 v2 h1 =>
+        have hi2 : i2 <:+ input := (hn.sfx _ _ _ h1).trans hi
+        split at h
+        · injection h with h1 h2; exact h1 ▸ List.nil_suffix
+        · split at h
+          · injection h with h1 h2; exact h1 ▸ hi2
+          · exact ih _ _ _ hi2 h
+      · split at h
+        · simp at h
+        · next b rest _ _ =>
+          have hrest : rest <:+ input := (List.suffix_cons b rest).trans hi
+          split at h
+          · split at h
+            · simp at h
+            · split at h
+              · simp at h
+              · simp at h
+              · simp at h
+              · next i2 v2 h2 =>
+                have hi2 : i2 <:+ input := (he.sfx _ _ _ h2).trans hrest
+                split at h
+                · injection h with h1 h2; exact h1 ▸ List.nil_suffix
+                · exact ih _ _ _ hi2 h
+          · split at h
+            · simp at h
+            · injection h with h1 h2; exact h1 ▸ hi
+
+theorem escapedGo_np {normal : Parser α} {ctl : UInt8} {esc : Parser β} {input : Bytes}
+    (hn : Good normal) (he : Good esc) :
+    ∀ n i, escapedGo normal ctl esc input n i ≠ .panic := by
+  intro n
+  induction n with
+  | zero => intro i h; simp [escapedGo] at h
+  | succ n ih =>
+    intro i h
+    simp only [escapedGo] at h
+    split at h
+    · simp at h
+    · split at h
+      · simp at h
+      · next h1 => exact hn.np _ h1
+      · split at h
+        · simp at h
+        · split at h
+          · simp at h
+          · exact ih _ h
+      · split at h
+        · simp at h
+        · split at h
+          · split at h
+            · simp at h
+            · split at h
+              · simp at h
+              · next h2 => exact he.np _ h2
+              · simp at h
+              · split at h
+                · simp at h
+                · exact ih _ h
+          · split at h <;> simp at h
+
+theorem escapedGo_ei {normal : Parser α} {ctl : UInt8} {esc : Parser β} {input : Bytes}
+    (hn : Good normal) (he : Good esc) :
+    ∀ n i es, i <:+ input → escapedGo normal ctl esc input n i = .err es →
+      ∀ e ∈ es, e.rem ≤ input.length := by
+  intro n
+  induction n with
+  | zero => intro i es _ h; simp [escapedGo] at h
+  | succ n ih =>
+    intro i es hi h
+    simp only [escapedGo] at h
+    split at h
+    · simp at h
+    · split at h
+      · simp at h
+      · simp at h
+      · next i2 v2 h1 =>
+        have hi2 : i2 <:+ input := (hn.sfx _ _ _ h1).trans hi
+        split at h
+        · simp at h
+        · split at h
+          · simp at h
+          · exact ih _ _ hi2 h
+      · split at h
+        · simp at h
+        · next b rest _ _ =>
+          have hrest : rest <:+ input := (List.suffix_cons b rest).trans hi
+          split at h
+          · split at h
+            · simp at h; subst h; exact errIn_nil
+            · split at h
+              · simp at h
+              · simp at h
+              · next e h2 =>
+                simp at h; subst h
+                intro e' he'
+                exact Nat.le_trans (he.ei _ _ h2 e' he') hrest.length_le
+              · next i2 v2 h2 =>
+                have hi2 : i2 <:+ input := (he.sfx _ _ _ h2).trans hrest
+                split at h
+                · simp at h
+                · exact ih _ _ hi2 h
+          · split at h
+            · simp at h; subst h; exact errIn_nil
+            · simp at h
+
+theorem good_escaped {normal : Parser α} {ctl : UInt8} {esc : Parser β}
+    (hn : Good normal) (he : Good esc) : Good (escaped normal ctl esc) where
+  sfx := by intro inp r v h; exact escapedGo_sfx hn he _ _ _ _ List.suffix_rfl h
+  np := by intro inp; exact escapedGo_np hn he _ _
+  ei := by intro inp es h; exact escapedGo_ei hn he _ _ _ List.suffix_rfl h
+
+/-! ### monadic pbind (for the hand-written `match … inp with` parsers) -/
+
+def pbind (p : Parser α) (f : α → Parser β) : Parser β := fun inp =>
+  match p inp with
+  | .ok r a => f a r
+  | .err e => .err e
+  | .oom => .oom
+  | .panic => .panic
+
+theorem good_pbind {p : Parser α} {f : α → Parser β} (hp : Good p) (hf : ∀ a, Good (f a)) :
+    Good (pbind p f) where
+  sfx := by
+    intro inp r v h; unfold pbind at h
+    split at h <;> try simp at h
+    next r1 a h1 => exact ((hf a).sfx _ _ _ h).trans (hp.sfx _ _ _ h1)
+  np := by
+    intro inp h; unfold pbind at h
+    split at h <;> try simp at h
+    · next r1 a h1 => exact (hf a).np _ h
+    · next h1 => exact hp.np _ h1
+  ei := by
+    intro inp es h; unfold pbind at h
+    split at h <;> try simp at h
+    · next r1 a h1 =>
+      intro e he
+      exact Nat.le_trans ((hf a).ei _ _ h e he) (hp.sfx.len h1)
+    · next e h1 => subst h; exact hp.ei _ _ h1
+
+def ret (v : α) : Parser α := fun i => .ok i v
+
+theorem good_ret (v : α) : Good (fun i => Res.ok i v : Parser α) where
+  sfx := by intro inp r w h; simp at h; exact h.1 ▸ List.suffix_rfl
+  np := by intro inp h; simp at h
+  ei := by intro inp es h; simp at h
+
+theorem good_ite_fun {c : Prop} [Decidable c] {p q : Parser α} (hp : Good p) (hq : Good q) :
+    Good (fun i => if c then p i else q i) := by
+  by_cases h : c
+  · simp only [h, if_true]; exact hp
+  · simp only [h, if_false]; exact hq
+
+/-! ### the `good` tactic -/
+
+/-- one syntactic step of the `Good` derivation -/
+macro "good_step" : tactic => `(tactic| with_reducible first
+  | assumption
+  | exact good_oom
+  | exact good_tag _ | exact good_char _ | exact good_isNot _ | exact good_isA _
+  | exact good_multispace0 | exact good_multispace1 | exact good_alpha1 | exact good_digit1
+  | exact good_take1 _
+  | exact good_ret _
+  | apply good_alt_cons | apply good_alt_one | apply good_alt_nil | apply good_orElse
+  | apply good_ite_fun
+  | apply good_value | apply good_preceded | apply good_terminated | apply good_delimited
+  | apply good_pmap | apply good_mapRes | apply good_recognize | apply good_seq
+  | apply good_opt | apply good_context | apply good_pnot
+  | apply good_many0 | apply good_manyTill | apply good_sepList0 | apply good_sepList1
+  | apply good_escaped | apply good_pbind)
+
+macro "good" : tactic => `(tactic| repeat' good_step)
+
+/-! ### exact shape of successful results -/
 
 /-- `recognize` returns exactly the consumed prefix. -/
-theorem recognize_spec {α} {p : Parser α} (hp : Sfx p) {inp r v} (h : recognize p inp = .ok r v) :
-    inp = v ++ r := by
+theorem recognize_ok {p : Parser α} (hp : Sfx p) {inp r v} (h : recognize p inp = .ok r v) :
+    inp = v ++ r ∧ ∃ w, p inp = .ok r w := by
   unfold recognize at h
   split at h <;> try simp at h
   next r' v' hp' =>
     obtain ⟨pre, e⟩ := hp _ _ _ hp'
     obtain ⟨h1, h2⟩ := h
     subst h1
-    rw [← h2, e]
+    refine ⟨?_, v', hp'⟩
+    rw [← h2, ← e]
     simp
+
+theorem recognize_spec {p : Parser α} (hp : Sfx p) {inp r v} (h : recognize p inp = .ok r v) :
+    inp = v ++ r := (recognize_ok hp h).1
+
+theorem pmap_ok {p : Parser α} {f : α → β} {inp r v} (h : pmap p f inp = .ok r v) :
+    ∃ w, p inp = .ok r w ∧ v = f w := by
+  unfold pmap at h
+  split at h <;> try simp at h
+  next r' v' hp' => exact ⟨v', h.1 ▸ hp', h.2.symm⟩
+
+theorem mapRes_ok {p : Parser α} {f : α → Option β} {inp r v} (h : mapRes p f inp = .ok r v) :
+    ∃ w, p inp = .ok r w ∧ f w = some v := by
+  unfold mapRes at h
+  split at h <;> try simp at h
+  next r' v' hp' =>
+    split at h <;> try simp at h
+    next w hw => exact ⟨v', h.1 ▸ hp', h.2 ▸ hw⟩
+
+theorem delimited_ok {p : Parser α} {q : Parser β} {s : Parser γ} {inp r v}
+    (h : delimited p q s inp = .ok r v) :
+    ∃ r1 r2 a c, p inp = .ok r1 a ∧ q r1 = .ok r2 v ∧ s r2 = .ok r c := by
+  unfold delimited preceded terminated at h
+  obtain ⟨w, hw, rfl⟩ := pmap_ok h
+  obtain ⟨r1, h1, h2⟩ := seq_ok hw
+  obtain ⟨w2, hw2, e2⟩ := pmap_ok h2
+  obtain ⟨r2, h3, h4⟩ := seq_ok hw2
+  exact ⟨r1, r2, w.1, w2.2, h1, e2 ▸ h3, h4⟩
+
+/-! ### `Consumes`: success eats at least one byte -/
+
+def Consumes (p : Parser α) : Prop := ∀ inp r v, p inp = .ok r v → r.length < inp.length
+
+theorem consumes_tag {t : Bytes} (ht : t ≠ []) : Consumes (tag t) := by
+  intro inp r v h
+  rw [(tag_ok h).1]
+  cases t with
+  | nil => exact absurd rfl ht
+  | cons a t => simp; omega
+
+theorem consumes_char (c : UInt8) : Consumes (char c) := by
+  intro inp r v h; rw [(char_ok h).1]; simp
+
+theorem consumes_take1 (p : UInt8 → Bool) : Consumes (take1 p) := by
+  intro inp r v h
+  obtain ⟨h1, h2⟩ := take1_ok h
+  rw [h1]
+  cases v with
+  | nil => exact absurd rfl h2
+  | cons a t => simp; omega
+
+theorem consumes_oom : Consumes (fun _ => Res.oom : Parser α) := by
+  intro inp r v h; simp at h
+
+theorem consumes_pmap {p : Parser α} {f : α → β} (hp : Consumes p) : Consumes (pmap p f) := by
+  intro inp r v h
+  obtain ⟨w, hw, _⟩ := pmap_ok h
+  exact hp _ _ _ hw
+
+theorem consumes_mapRes {p : Parser α} {f : α → Option β} (hp : Consumes p) : Consumes (mapRes p f) := by
+  intro inp r v h
+  obtain ⟨w, hw, _⟩ := mapRes_ok h
+  exact hp _ _ _ hw
+
+theorem consumes_recognize {p : Parser α} (hp : Consumes p) : Consumes (recognize p) := by
+  intro inp r v h
+  unfold recognize at h
+  split at h <;> try simp at h
+  next r' v' hp' => exact h.1 ▸ hp _ _ _ hp'
+
+theorem consumes_seq_left {p : Parser α} {q : Parser β} (hp : Consumes p) (hq : Sfx q) :
+    Consumes (seq p q) := by
+  intro inp r v h
+  obtain ⟨r1, h1, h2⟩ := seq_ok h
+  exact Nat.lt_of_le_of_lt (hq.len h2) (hp _ _ _ h1)
+
+theorem consumes_seq_right {p : Parser α} {q : Parser β} (hp : Sfx p) (hq : Consumes q) :
+    Consumes (seq p q) := by
+  intro inp r v h
+  obtain ⟨r1, h1, h2⟩ := seq_ok h
+  exact Nat.lt_of_lt_of_le (hq _ _ _ h2) (hp.len h1)
+
+theorem consumes_delimited_left {p : Parser α} {q : Parser β} {s : Parser γ}
+    (hp : Consumes p) (hq : Sfx q) (hs : Sfx s) : Consumes (delimited p q s) := by
+  intro inp r v h
+  obtain ⟨r1, r2, a, c, h1, h2, h3⟩ := delimited_ok h
+  have := hp _ _ _ h1; have := hq.len h2; have := hs.len h3
+  omega
+
+theorem consumes_orElse {p q : Parser α} (hp : Consumes p) (hq : Consumes q) : Consumes (orElse p q) := by
+  intro inp r v h; unfold orElse at h
+  split at h
+  · exact hq _ _ _ h
+  · exact hp _ _ _ h
+
+theorem consumes_alt_one {p : Parser α} (hp : Consumes p) : Consumes (alt [p]) := hp
+theorem consumes_alt_cons {p q : Parser α} {ps : List (Parser α)} (hp : Consumes p)
+    (hq : Consumes (alt (q :: ps))) : Consumes (alt (p :: q :: ps)) := consumes_orElse hp hq
+
+theorem consumes_context {p : Parser α} {msg : String} (hp : Consumes p) : Consumes (context msg p) := by
+  intro inp r v h; unfold context at h
+  split at h
+  · simp at h
+  · exact hp _ _ _ h
+
+/-! ### `EndsEmpty`: success leaves no input -/
+
+def EndsEmpty (p : Parser α) : Prop := ∀ inp r v, p inp = .ok r v → r = []
+
+theorem endsEmpty_pmap {p : Parser α} {f : α → β} (hp : EndsEmpty p) : EndsEmpty (pmap p f) := by
+  intro inp r v h
+  obtain ⟨w, hw, _⟩ := pmap_ok h
+  exact hp _ _ _ hw
+
+theorem endsEmpty_seq_right {p : Parser α} {q : Parser β} (hq : EndsEmpty q) : EndsEmpty (seq p q) := by
+  intro inp r v h
+  obtain ⟨r1, _, h2⟩ := seq_ok h
+  exact hq _ _ _ h2
+
+theorem manyTillGo_endsEmpty {f : Parser α} {g : Parser β} (hg : EndsEmpty g) :
+    ∀ n inp acc r v, manyTillGo f g n inp acc = .ok r v → r = [] := by
+  intro n
+  induction n with
+  | zero => intro inp acc r v h; simp [manyTillGo] at h
+  | succ n ih =>
+    intro inp acc r v h
+    simp only [manyTillGo] at h
+    split at h
+    · next r0 o h0 => injection h with h1 h2; exact h1 ▸ hg _ _ _ h0
+    · simp at h
+    · simp at h
+    · split at h
+      · simp at h
+      · simp at h
+      · simp at h
+      · split at h
+        · simp at h
+        · exact ih _ _ _ _ h
+
+theorem endsEmpty_manyTill {f : Parser α} {g : Parser β} (hg : EndsEmpty g) :
+    EndsEmpty (manyTill f g) := by
+  intro inp r v h; exact manyTillGo_endsEmpty hg _ _ _ _ _ h
 
 end Nom
